@@ -150,8 +150,52 @@ func c08StructAssign(r *Run) {
 	}
 }
 
+type c08Tagged struct {
+	Title   string `json:",omitempty"` // an option only: the key is the Go name
+	Section string `json:"section"`
+	Renamed string `json:"renamed,omitempty"`
+	Plain   string
+	Count   int `json:",string"`
+}
+
+// Fill(struct) ranks like Fill(map of the same keys) over theme.yml and data/*.yml, whatever the shape of the field's
+// json tag: a name only, options only, both, none
+func c08StructTags(r *Run) {
+	fsys := fstest.MapFS{
+		"theme.yml":     {Data: []byte("Title: theme-Title\nsection: theme-section\nrenamed: theme-renamed\nPlain: theme-Plain\nCount: 7\nfooter: theme-footer\n")},
+		"data/site.yml": {Data: []byte("Title: site-Title\nrenamed: site-renamed\nPlain: site-Plain\n")},
+		"page.vuego": {Data: []byte(`<h1>{{ Title }}|{{ section }}|{{ renamed }}|{{ Plain }}|{{ Count }}|{{ footer }}</h1>` +
+			`<b v-if="Title == 'filled-Title'">t</b><b v-if="renamed == 'filled-renamed'">r</b><b v-if="Plain == 'filled-Plain'">p</b><a :title="Title" :data-r="renamed" :data-p="Plain">x</a>`)},
+	}
+	render := func(data any, fillFirst bool) string {
+		var buf bytes.Buffer
+		var err error
+		if fillFirst {
+			err = vuego.NewFS(fsys).Fill(data).Load("page.vuego").Render(context.Background(), &buf)
+		} else {
+			err = vuego.NewFS(fsys).Load("page.vuego").Fill(data).Render(context.Background(), &buf)
+		}
+		return buf.String() + "|err=" + fmt.Sprint(err)
+	}
+	st := c08Tagged{Title: "filled-Title", Section: "filled-section", Renamed: "filled-renamed", Plain: "filled-Plain", Count: 3}
+	m := map[string]any{"Title": "filled-Title", "section": "filled-section", "renamed": "filled-renamed", "Plain": "filled-Plain", "Count": 3}
+	for _, ff := range []bool{true, false} {
+		want := render(m, ff)
+		for name, d := range map[string]any{"struct": st, "pointer": &st} {
+			got := render(d, ff)
+			r.Eval(fmt.Sprintf("struct-tags:%s:%v", name, ff), true, nil)
+			r.Count("stream:struct-tags(oracle only)")
+			if got != want {
+				r.Fail("Fill(struct) does not rank like Fill(map of the same keys)", map[string]string{"oracle": "struct-tags", "data": name},
+					map[string]any{"data": name, "fill_before_load": ff, "with_struct": got, "with_map": want})
+			}
+		}
+	}
+}
+
 func runC08(r *Run) {
 	c08StructAssign(r)
+	c08StructTags(r)
 	r.Imports = []string{"Base.Val", "Model.Stack", "Model.Sources"}
 	r.Rule("engines with every presence pattern of a key in theme.yml, data/1.yml, data/2.yml (directory order), the page's front-matter, Fill and Assign; Fill data as map, struct (json tags and an untagged field) and pointer to struct; " +
 		"histories up to length 9 of New / Load / Fill / Assign / Get / Render / RenderString on a growing template tree; after every render each key is read through {{ }}, a bound attribute and v-if, " +
